@@ -1,6 +1,7 @@
 package main
 
 import (
+	"os"
 	"go/token"
 	"fmt"
 	"go/ast"
@@ -198,9 +199,15 @@ func (vc *VC) specEnv(st, old *State) *SpecEnv {
 }
 
 func (vc *VC) checkInvs(st *State, ls *LoopSpec, kind string, entry *State, n int, where string) {
+	if os.Getenv("GOVC_DEBUG_LOOPS") != "" {
+		fmt.Fprintf(os.Stderr, "checkInvs %s %s loop%d invs=%d dry=%d quiet=%d\n", vc.fi.Key, kind, n, len(ls.Invs), vc.dry, vc.quiet)
+	}
 	env := vc.specEnv(st, vc.entry)
 	env.lentry = entry
 	for _, inv := range ls.Invs {
+		if os.Getenv("GOVC_DEBUG_LOOPS") != "" {
+			fmt.Fprintf(os.Stderr, "   inv props=%v wanted=%v %s\n", inv.Props, vc.wanted(inv.Props), inv.Text[:min(60, len(inv.Text))])
+		}
 		if !vc.wanted(inv.Props) {
 			continue
 		}
@@ -208,6 +215,11 @@ func (vc *VC) checkInvs(st *State, ls *LoopSpec, kind string, entry *State, n in
 		props := inv.Props
 		o := vc.oblige(st, fmt.Sprintf("%s/loop%d", kind, n), inv.Text, inv.Where, g, props)
 		_ = o
+		if kind == "inv-entry" && strings.Contains(inv.Text, "lold(") {
+			// the invariant, once demanded of the entry state, is a fact about that state: invariants that speak
+			// about the entry state through lold() need it at the loop head and after the loop
+			st.assume(g)
+		}
 	}
 	if ls.HasW && kind == "inv-preserve" {
 		vc.checkFrame(st, entry, ls.Writes, fmt.Sprintf("loop-frame/loop%d", n), where, entry)
@@ -335,7 +347,12 @@ func (vc *VC) execFor(st *State, x *ast.ForStmt, label string) []*State {
 // anchors applies `assert @anchor: e` / `assume @anchor: e` clauses to the given states.
 func (vc *VC) anchors(sts []*State, anchor string, lentry *State, extra ...map[string]Term) {
 	for _, c := range vc.spec.Asserts {
-		if c.Name != anchor || !vc.wanted(c.Props) {
+		if c.Name != anchor {
+			continue
+		}
+		if !vc.wanted(c.Props) {
+			// a clause of another property: the anchor exists, the clause takes no part in this run
+			vc.usedAnchors[anchor] = true
 			continue
 		}
 		if vc.dry > 0 {
